@@ -172,6 +172,12 @@ class Recorder:
         except Exception as e:  # a refused request raises; the protocol catches it
             ok = False
             self.exc_types.append(type(e).__name__)
+            if self.scn.get("escapeAt") == len(self.exc_types):
+                # scenario flag escapeAt: this protocol does NOT catch its k-th refusal - the exception
+                # leaves the callback and aborts the run (only C06 uses it: an aborted run is aborted
+                # the same way however it is driven)
+                self.trace.append(["req", n, req, ok])
+                raise
         self.trace.append(["req", n, req, ok])
         return ok
 
